@@ -24,14 +24,11 @@ pub fn noninteractive<T: BufRead>(mut f: T, config: &Config, show_prompt: bool) 
             print!("> ");
         }
         stdout().flush().unwrap();
-        if f.read_line(&mut line).is_err() {
-            return Ok(());
-        }
-        // the underlying file object has hit an EOF if we try to read a
-        // line but do not find the newline at the end, so let's break
-        // out of the loop
-        if line.find('\n').is_none() {
-            return Ok(());
+        // Reading nothing at all is the end of the input. A last line
+        // that does not end with a newline is still a query.
+        match f.read_line(&mut line) {
+            Err(_) | Ok(0) => return Ok(()),
+            Ok(_) => (),
         }
         match one_line(&mut ctx, &*line) {
             Ok(v) => println!("{}", v),
